@@ -213,7 +213,8 @@ Definition violations (k : c09case) : list N :=
     else if mirror_ok c (s_time (k_final_src k)) (m_t (k_final k)) then []
     else if activity_ok c (s_time (k_final_src k)) (m_t (k_final k)) then [120] else [100] in
   let ready := if k_ready k && negb (k_exc k) then [] else [600] in
-  map (fun d => d + cl)
+  (* the lost-session clause names its own cause *)
+  map (fun d => if d =? 520 then 529 else d + cl)
       (dedup (fin ++ flat_map (step_viol k) (k_steps k) ++ ready
               ++ act_viol k (k_final k))).
 
